@@ -134,12 +134,15 @@ class Ctx(object):
             'coverage': cov, 'assumptions': self.assumptions,
             'wall_s': round(time.time() - self.t0, 3), 'violations': nviol,
         }
-        os.makedirs(os.path.join(ROOT, 'evidence'), exist_ok=True)
-        tmp = os.path.join(ROOT, 'evidence', '.%s.json.tmp' % self.pid)
+        # VERIF_EVIDENCE_DIR: used by tools/seedcheck.sh so that runs against modified trees do not
+        # overwrite the evidence of the run against /repo
+        evdir = os.environ.get('VERIF_EVIDENCE_DIR') or os.path.join(ROOT, 'evidence')
+        os.makedirs(evdir, exist_ok=True)
+        tmp = os.path.join(evdir, '.%s.json.tmp' % self.pid)
         with open(tmp, 'w') as f:
             json.dump(ev, f, indent=1, default=repr, sort_keys=True)
             f.write('\n')
-        os.replace(tmp, os.path.join(ROOT, 'evidence', '%s.json' % self.pid))
+        os.replace(tmp, os.path.join(evdir, '%s.json' % self.pid))
         print('%s tier=%s evaluations=%d states=%d transitions=%d traces=%d outcomes=%d nontrivial=%d exhaustive=%s violations=%d known=%d wall=%.1fs' % (
             self.pid, self.tier, cov['evaluations'], cov['states'], cov['transitions'],
             cov['traces_validated_against_impl'], cov['distinct_outcomes'], cov['distinct_nontrivial'],
